@@ -214,6 +214,10 @@ theorem movingCutoff_cutoff (core : Core) (mode : FhMode) (s : FState) (y : Seri
 theorem updatePredict_cutoff (core : Core) (mode : FhMode) (s : FState) (y : Series) (cv : Option CvSpec)
     (up : Bool) : (updatePredict core mode s y cv up).1.cutoff = s.cutoff := by
   unfold updatePredict
+  by_cases hfit : s.fitted = true
+  swap
+  · simp [hfit]
+  simp only [hfit, Bool.not_true, Bool.false_eq_true, ↓reduceIte]
   cases cvSpecOf s cv with
   | error e => rfl
   | ok c =>
